@@ -97,3 +97,32 @@ func maskFromLog(cmds []Cmd, log []refOp) int {
 	}
 	return mask
 }
+
+// logConsistent reports whether the commands selected by mask, in order, are
+// exactly the successful mutating calls of the log, in order.
+func logConsistent(cmds []Cmd, mask int, log []refOp) bool {
+	k := 0
+	var ok []refOp
+	for _, op := range log {
+		if op.OK {
+			ok = append(ok, op)
+		}
+	}
+	for i, c := range cmds {
+		if mask&(1<<i) == 0 {
+			continue
+		}
+		if k >= len(ok) {
+			return false
+		}
+		op := ok[k]
+		if op.Name != c.Name {
+			return false
+		}
+		if !((c.Action() == "delete" && op.Op == "remove") || (c.Action() != "delete" && op.Op != "remove" && op.Val == c.New)) {
+			return false
+		}
+		k++
+	}
+	return k == len(ok)
+}
